@@ -1,6 +1,6 @@
 # Configuration of ./check C14 (see props.d/C06.py for the fields).
 PROP = {
-    "regen_files": ["GenGuards.v"],
+    "regen_files": ["GenGuards.v", "GenSigs.v"],
     "num": 14,
     "runs": [
         {"tag": "c14", "bin": "c14"},
